@@ -335,6 +335,7 @@ def rule_csv_tables(ctx: Ctx) -> RuleResult:
     _PATTERN_ENV.clear()
     _PATTERN_ENV.update(pattern_env(m.enclosing_function(fn)))
     reader = None
+    parser_calls_seen = False
     split_ok = False
     merge_args_ok = None
     mm_, mfn = ctx.function(CSV, "merge_escape_parts")
@@ -388,6 +389,7 @@ def rule_csv_tables(ctx: Ctx) -> RuleResult:
         # the unquoting branch: value handed to the column parser is a replace chain over i[1:-1]
         for e in p.trace:
             if e.k == "call" and e.func[0] == "sub" and e.func[1] == ("arg", m.scopes[fn].params[1]) and e.args:
+                parser_calls_seen = True
                 base, chain = _replace_chain(e.args[0])
                 if chain:
                     reader = chain
@@ -396,6 +398,39 @@ def rule_csv_tables(ctx: Ctx) -> RuleResult:
                                              "a quoted field must be stripped of exactly its first and last character before unescaping; base is %s" % show(base)))
     r.ob(split_ok, lambda: Finding("CS-1", "%s::parse_line{split}" % CSV, m.where(fn), "the line must be split on the separator parameter"))
     inv = [(b, a) for a, b in want_w]
+    if not parser_calls_seen:
+        # the field loop written as a comprehension (or map) over a local helper that handles one field: the helper's paths are the
+        # loop body
+        cname = m.scopes[fn].params[1]
+        called_in_comp = {c.func.id for comp in ast.walk(fn) if isinstance(comp, (ast.ListComp, ast.GeneratorExp)) for c in ast.walk(comp)
+                          if isinstance(c, ast.Call) and isinstance(c.func, ast.Name)}
+        called_in_comp |= {c.args[0].id for c in ast.walk(fn) if isinstance(c, ast.Call) and isinstance(c.func, ast.Name) and c.func.id == "map"
+                           and c.args and isinstance(c.args[0], ast.Name)}
+        helpers = [h for h in ast.walk(fn) if isinstance(h, ast.FunctionDef) and h is not fn and m.enclosing_function(h) is fn and h.name in called_in_comp]
+        for h in helpers:
+            for p in ctx.fn_paths(m, h, cfg={"ignore_error": "False"}, max_iter=1):
+                r.paths += 1
+                if not _normal(p):
+                    continue
+                pcs = [e for e in p.trace if e.k == "call" and e.func[0] == "sub" and e.func[1][0] in ("arg", "free", "param") and e.func[1][1] == cname and e.args]
+                if p.outcome == "return":
+                    none_t = any(e.k == "decision" and e.outcome and e.test[0] == "cmp" and e.test[1] == "In" and e.test[3][0] == "param" and e.test[3][1] == "none_values"
+                                 for e in p.trace)
+                    r.ob(bool(pcs) or none_t, lambda p=p, h=h: Finding(
+                        "CS-1", "%s::parse_line{field-parser}" % CSV, m.where(h),
+                        "on this path of %s a field is neither one of none_values nor handed to its column parser: its value does not come from the text "
+                        "that was written" % h.name, trace_of(p)))
+                for e in pcs:
+                    parser_calls_seen = True
+                    base, chain = _replace_chain(e.args[0])
+                    if chain:
+                        reader = chain
+                        ok = base[0] == "sub" and base[2][0] == "slice" and base[2][1] == ("const", 1) and base[2][2] == ("const", -1)
+                        r.ob(ok, lambda e=e, base=base: Finding("CS-1", "%s::parse_line{unquote}" % CSV, m.where(e.node),
+                                                                "a quoted field must be stripped of exactly its first and last character before unescaping; base is %s" % show(base)))
+    if not parser_calls_seen:
+        raise AnalysisError("csv parse_line: no path hands a field to its column parser in a form the rules can follow (the field loop is not a "
+                            "statement loop over the pieces -- a comprehension over a helper, a map): the unescaping cannot be read")
     if reader is not None and any(x is None for pair in reader for x in pair):
         raise AnalysisError("csv parse_line: an argument of the unescaping replace chain is not a literal / escapechar pattern the analysis can read")
     r.ob(reader is not None and sorted(reader) == sorted(inv), lambda: Finding(
